@@ -128,7 +128,10 @@ impl<V: FromVariant, F: FromField> Data<V, F> {
                 let items = data
                     .variants
                     .iter()
-                    .filter_map(|v| errors.handle(FromVariant::from_variant(v)))
+                    // Say which variant an error is about, as `Fields::try_from` does for named fields.
+                    .filter_map(|v| {
+                        errors.handle(FromVariant::from_variant(v).map_err(|e| e.at(&v.ident)))
+                    })
                     .collect();
 
                 errors.finish_with(Data::Enum(items))
